@@ -281,3 +281,25 @@ theorem massInterT_spec (L : List (Option (WMap ℝ) × ℝ)) :
       all_goals (try ring)
 
 end Hyp.SetOps
+
+namespace Hyp.SetOps
+open Hyp Hyp.SetSpec
+
+theorem massUnion_spec (L : List (WMap ℝ × ℝ)) :
+    ∃ r, massUnion L = .ok r ∧ ∀ k, AMap.get r k = unionAt L k := by
+  obtain ⟨t, ht, hg⟩ := massUnionT_spec L
+  exact ⟨t.val, by simp [massUnion, ht, Except.map], hg⟩
+
+theorem massInter_spec (L : List (Option (WMap ℝ) × ℝ)) :
+    ∃ r, massInter L = .ok r ∧ ∀ k, AMap.get r k = interAt (present L) k := by
+  obtain ⟨t, ht, hg⟩ := massInterT_spec L
+  exact ⟨t.val, by simp [massInter, ht, Except.map], hg⟩
+
+theorem present_map_some (L : List (WMap ℝ × ℝ)) :
+    present (L.map (fun p => (some p.1, p.2))) = L := by
+  unfold present
+  induction L with
+  | nil => rfl
+  | cons p L ih => simp [List.filterMap_cons, ih]
+
+end Hyp.SetOps
